@@ -212,7 +212,58 @@ impl Monitor for C04 {
                     out.nontrivial = false;
                     out.count("runs_aborted_by_the_documented_NaN_loss_panic", 1);
                 } else {
-                    out.viol("train:learn-panic", format!("learn panicked: {} [{}]", short(&m, 160), desc), detail());
+                    // a diverging run (non-finite weights) makes arg-max / comparisons panic inside
+                    // validate(); the reference trainer tells whether the run diverges
+                    let objf = objective::Function::create(lib_obj(obj), None);
+                    let mut cur = params.clone();
+                    let mut diverged = false;
+                    let probe = guard(|| {
+                        'outer: for epoch in 1..=epochs {
+                            for g in (0..n).collect::<Vec<_>>().chunks(batch) {
+                                let tnet = build_net(&cur).expect("twin build");
+                                let mut sum: Vec<Vec<f32>> = Vec::new();
+                                for &si in g {
+                                    let (pre, post, maxp, fbs) = tnet.forward(&train.x_tensors[si]);
+                                    let (l, grad) = objf.loss(post.last().unwrap(), &train.t_tensors[si]);
+                                    if !l.is_finite() {
+                                        diverged = true;
+                                        break 'outer;
+                                    }
+                                    let (wg, bg) = tnet.verif_backward(grad, &pre, &post, &maxp, fbs);
+                                    let gf = grads_flat(&tnet, &wg, &bg);
+                                    if sum.is_empty() {
+                                        sum = gf;
+                                    } else {
+                                        for (a, b) in sum.iter_mut().zip(gf.iter()) {
+                                            for (x, y) in a.iter_mut().zip(b.iter()) {
+                                                *x += *y;
+                                            }
+                                        }
+                                    }
+                                }
+                                for li in 0..cur.len() {
+                                    let mut vals = cur[li].flat();
+                                    let mut st: Vec<St<f32>> = vec![St::default(); vals.len()];
+                                    for k in 0..vals.len() {
+                                        model_step(&opt, epoch as i32, &mut vals[k], sum[li][k] as f64, &mut st[k]);
+                                        if !vals[k].is_finite() || vals[k].abs() > 1e15 {
+                                            diverged = true;
+                                        }
+                                    }
+                                    cur[li].set_flat(&vals);
+                                }
+                                if diverged {
+                                    break 'outer;
+                                }
+                            }
+                        }
+                    });
+                    if diverged || probe.is_err() {
+                        out.nontrivial = false;
+                        out.count("runs_that_diverge_to_non_finite_values_not_judged", 1);
+                    } else {
+                        out.viol("train:learn-panic", format!("learn panicked: {} [{}]", short(&m, 160), desc), detail());
+                    }
                 }
                 return out;
             }
@@ -324,6 +375,12 @@ impl Monitor for C04 {
         }
         if lib_flat.len() != twin_flat.len() {
             out.inconclusive = Some("parameter count mismatch between library and twin".into());
+            return out;
+        }
+        let huge = twin_flat.iter().chain(twin_b_flat.iter()).any(|v| !v.is_finite() || v.abs() > 1e15) || twin_loss.iter().chain(twin_loss_b.iter()).any(|v| !v.is_finite() || v.abs() > 1e30);
+        if huge {
+            out.nontrivial = false;
+            out.count("runs_that_diverge_to_non_finite_values_not_judged", 1);
             return out;
         }
         let mut bit_equal = true;
